@@ -27,6 +27,9 @@ BACKENDS = {
 }
 
 
+LIT_VARIANTS = {"lit_float": ["", "neg", "imag", "cplx", "ncplx"], "lit_int": ["", "neg"]}
+
+
 class Builder:
     """Builds small abstract trees and their intended canonical trees."""
 
@@ -40,9 +43,9 @@ class Builder:
         n.children["name"] = Str([name])
         return n
 
-    def lit(self, cls: str, text: str) -> ANode:
+    def lit(self, cls: str, value) -> ANode:
         n = ANode(self.classes[cls], {}, tag=f"lit{next(self.count)}")
-        n.children["value"] = Str([text])
+        n.children["value"] = value  # concrete Python number
         return n
 
     def make(self, c: LClass, kids: list[ANode] | None = None, variant: str = "") -> ANode:
@@ -51,9 +54,9 @@ class Builder:
         if k == "symbol":
             return self.sym()
         if k == "lit_float":
-            return self.lit(c.name, "-2.5" if variant == "neg" else "2.5")
+            return self.lit(c.name, {"": 2.5, "neg": -2.5, "imag": 2j, "cplx": 1.5 + 2j, "ncplx": -1.5 - 2j, "near": 1.0000000000000004}[variant])
         if k == "lit_int":
-            return self.lit(c.name, "-3" if variant == "neg" else "3")
+            return self.lit(c.name, -3 if variant == "neg" else 3)
         kids = kids or []
 
         def kid(i):
@@ -93,7 +96,7 @@ class Builder:
         if k == "symbol":
             return ("sym", n.tag)
         if k in ("lit_float", "lit_int"):
-            return canon(("num", "".join(ch["value"].flat())))
+            return ("num", complex(ch["value"]))
         if k in ("bin", "assign"):
             return ("bin", opmap(c.op), self.intended(ch["lhs"], opmap), self.intended(ch["rhs"], opmap))
         if k == "nary":
@@ -162,7 +165,7 @@ def prec_grammar(repo, res, backends=("C", "numba"), props_by_backend=None):
                 b = Builder(classes)
                 for pos in b.positions(P, pv):
                     for C in exprs:
-                        cvars = ["", "neg"] if C.kind in ("lit_float", "lit_int") else [""]
+                        cvars = LIT_VARIANTS[C.kind] if C.kind in LIT_VARIANTS else [""]
                         for cv in cvars:
                             if not constructible(P, pos, C):
                                 continue
@@ -185,7 +188,7 @@ def prec_grammar(repo, res, backends=("C", "numba"), props_by_backend=None):
                             else:
                                 kids[int(idx)] = child
                             tree = bb.make(P, kids, variant=pv)
-                            want = strip_call_name(bb.intended(tree, opmap))
+                            want = strip_call_name(canon(bb.intended(tree, opmap)))
                             try:
                                 text = render(ev, tree)
                             except AnalysisError as e:
@@ -198,7 +201,7 @@ def prec_grammar(repo, res, backends=("C", "numba"), props_by_backend=None):
                             except ParseError as e:
                                 res.fail(
                                     f"{be}:{P.name}:{pos}:{C.name}{cv}",
-                                    f"{be} formatter emits `{text.strip()}` for {P.name}({pos}={C.name}{' negative' if cv else ''}); "
+                                    f"{be} formatter emits `{text.strip()}` for {P.name}({pos}={C.name}{' ' + cv if cv else ''}); "
                                     f"the {be} grammar rejects it: {e}",
                                     modname.replace(".", "/") + ".py",
                                     props=props_by_backend[be],
@@ -207,7 +210,7 @@ def prec_grammar(repo, res, backends=("C", "numba"), props_by_backend=None):
                             if got != want:
                                 res.fail(
                                     f"{be}:{P.name}:{pos}:{C.name}{cv}",
-                                    f"{be} formatter emits `{text.strip()}` for {P.name}({pos}={C.name}{' negative' if cv else ''}); "
+                                    f"{be} formatter emits `{text.strip()}` for {P.name}({pos}={C.name}{' ' + cv if cv else ''}); "
                                     f"read back by the {be} grammar it is {got}, intended {want}",
                                     modname.replace(".", "/") + ".py",
                                     props=props_by_backend[be],
@@ -222,13 +225,14 @@ def prec_grammar(repo, res, backends=("C", "numba"), props_by_backend=None):
                 text = render(ev, tree)
                 src = text.rstrip().rstrip(";") if C.kind == "assign" else text
                 got = strip_call_name(canon(parser(src)))
-                want = strip_call_name(bb.intended(tree, opmap))
+                want = strip_call_name(canon(bb.intended(tree, opmap)))
                 if got != want:
                     res.fail(key, f"{be} formatter emits `{text.strip()}` for a {C.name} node; read back as {got}, intended {want}",
                              modname.replace(".", "/") + ".py", props=props_by_backend[be])
             except ParseError as e:
                 res.fail(key, f"{be} formatter text for a {C.name} node is not valid {be}: `{text.strip()}` ({e})",
                          modname.replace(".", "/") + ".py", props=props_by_backend[be])
+        res.notes.extend(sorted(ev.notes))
     res.notes.append(
         "triples excluded as not constructible: arithmetic/n-ary/conditional-branch operands whose class "
         "carries DataType.NONE (merge_dtypes raises)"
@@ -287,7 +291,7 @@ def loop_bounds(repo, res):
 
                     collect(child)
                     text = header.render(lambda a: render(ev, a.node if a.node is not None else index[a.node_tag]))
-                    want_child = strip_call_name(bb.intended(child, lambda o: o))
+                    want_child = strip_call_name(canon(bb.intended(child, lambda o: o)))
                     ok, why = _check_header(be, text, pos, want_child, parser)
                     if not ok:
                         res.fail(f"{be}:ForRange:{pos}:{C.name}{cv}",
@@ -383,6 +387,29 @@ def lit_digits(repo, res):
             for n in walk_no_nested(f.node):
                 if isinstance(n, ast.FormattedValue) and n.format_spec is not None:
                     spec = "".join(str(v.value) for v in n.format_spec.values if isinstance(v, ast.Constant))
+                    dyn = [v for v in n.format_spec.values if isinstance(v, ast.FormattedValue)]
+                    if dyn and spec.startswith("."):
+                        # precision computed at run time: `.{sf}` - resolve sf through local definitions
+                        found += 1
+                        key = f"{be}:{f.qualname.split('#')[0]}:float-spec:{ast.unparse(n.value)}"
+                        res.ob(key)
+                        from ..flow import Slicer
+
+                        txt = Slicer(f.node).text(dyn[0].value)
+                        mm = re.search(r"finfo\([^)]*\)\.precision\s*\+\s*(\d+)", txt)
+                        suffix = spec[1:]
+                        if mm and suffix in ("", "g", "G"):
+                            k = int(mm.group(1))
+                            # numpy finfo.precision: float32 6, float64 15; digits needed for round trip: 9 and 17
+                            worst = {"float32": (6 + k, 9), "float64": (15 + k, 17)}
+                            badt = [f"{t}: {have} < {need}" for t, (have, need) in worst.items() if have < need]
+                            if badt:
+                                res.fail(key, f"{be} formatter prints floats with finfo.precision + {k} significant digits "
+                                         f"({'; '.join(badt)}): literals do not read back within one ulp", mod.line(n),
+                                         props=("C16", "C09") if be == "C" else ("C16",))
+                        else:
+                            raise AnalysisError(f"LIT-DIGITS: run-time float precision `{txt[:80]}` in {f.key} not understood")
+                        continue
                     if not re.search(r"\.\d+", spec):
                         continue
                     found += 1
